@@ -63,11 +63,15 @@ def check(rep, tier):
         geo = dict(height=0.05, diameter=0.05 if dim == "spatial_1D" else 0.1, K=300)
         try:
             Sshelf = sr.make(dim=dim, conf="shelf", prog=prog, **geo); sr.run(Sshelf)
-            for ts, td, kind in ((5.0, 0.1, "after-the-process"), (0.2, 0.1, "inside")):
+            for ts, td, kind in ((5.0, 0.1, "after-the-process"), (0.2, 0.1, "inside"), (0.1, 0.05, "closes-before-nucleation")):
                 Sv = sr.make(dim=dim, conf="VISF", prog=prog, extra={"VISF": {"t_vac_start": ts, "t_vac_duration": td, "kappa": 0.01}}, **geo); sr.run(Sv)
                 rep.case(("window", dim, kind), True)
-                if kind == "inside":
+                if kind != "after-the-process":
                     dtv, _ = sr.step_info(Sv)
+                    if dim == "spatial_1D":
+                        # exact discrete heat balance of every cooling step, with evaporation only inside the window
+                        import c02
+                        c02.audit_1d(rep, dict(S=Sv, dt=dtv, label="%s VISF window %g h + %g h (%s)" % (dim, ts, td, kind)))
                     (wc1 if dim == "spatial_1D" else wc2).append((sr.sn1d_case if dim == "spatial_1D" else sr.sn2d_case)(Sv, dtv, rng)[0])
                     (wl1 if dim == "spatial_1D" else wl2).append("%s VISF window %g h + %g h" % (dim, ts, td))
                 Ta, Tb = np.asarray(Sshelf.temp), np.asarray(Sv.temp)
